@@ -90,10 +90,10 @@ def kind_of(leaf):
 
 
 VALID = {
-    "text": ["a", "bb", "c3"],
+    "text": ["a", "bb", "c3", ""],
     "color": COLORS,
     "bool": [True, False],
-    "posnum": [1, 2, 3.5, 0.5],
+    "posnum": [1, 2, 3.5, 0.5, 0],
     "unit": [0, 0.25, 0.5, 1],
     "number": [0, 0.25, 0.5, 1],
     "sizemode": ["scaled", "absolute"],
